@@ -5,6 +5,7 @@ pub mod c04;
 pub mod c05;
 pub mod c06;
 pub mod c07;
+pub mod c09;
 pub mod c10;
 pub mod c11;
 pub mod c12;
@@ -26,6 +27,7 @@ pub fn run(id: &str, tier: Tier) -> Option<i32> {
         "C05" => c05::run(tier),
         "C06" => c06::run(tier),
         "C07" => c07::run(tier),
+        "C09" => c09::run(tier),
         "C10" => c10::run(tier),
         "C11" => c11::run(tier),
         "C12" => c12::run(tier),
@@ -85,6 +87,7 @@ pub fn replay(property: &str, part: &str, case: &serde_json::Value) -> Option<Re
         ("C05", "both-sides") => replay_part(&c05::BothSidesPart, case, 1),
         ("C05", "networks-realtime") => replay_part(&c05::NetworksRealTime, case, 2),
         ("C05", "networks") => replay_part(&c05::Networks, case, 1),
+        ("C09", "histories") => replay_part(&c09::Histories, case, 1),
         _ => return None,
     })
 }
